@@ -103,6 +103,11 @@ class VRange:
     def __init__(self, n): self.n = n
 
 
+class VArr:
+    """a 1-D NumPy array of numbers (np.zeros(n) and element assignments): (array, length); entries are integers here (counts)"""
+    def __init__(self, arr, n): self.arr, self.n = arr, n
+
+
 def symbolic(tp, name):
     if tp == "int":
         return VInt(fresh(name, I))
@@ -112,6 +117,10 @@ def symbolic(tp, name):
         return VList.symbolic("list[int]", name)
     if tp in ("list[int]", "list[key]"):
         return VList.symbolic(tp[5:-1], name)
+    if tp == "list[obj]":            # a list of opaque objects: only its length is modelled, methods go through abstract_methods
+        return VList("obj", None, fresh(name + ".len", I))
+    if tp == "array":
+        return VArr(fresh(name + ".arr", z3.ArraySort(I, I)), fresh(name + ".len", I))
     if tp.startswith("dict["):
         return VDict.symbolic(tp[5:-1].split(",")[1].strip(), name)
     raise Unsupported(f"type {tp}")
@@ -133,7 +142,12 @@ class Contract:
     params/locals: name -> type string; ghosts(): dict of ghost constants/functions (fresh per verification);
     pre(env, g) / post(env, result, g): lists of (name, z3 bool); invariants: list (by loop ordinal) of f(env, g) -> [(name, bool)];
     call_ghosts: list (by call ordinal) of f(env, g) -> ghost dict for the callee; result: type string."""
-    def __init__(self, function, params, result, ghosts, pre, post, invariants=(), locals=None, call_ghosts=(), card_candidates=None):
+    def __init__(self, function, params, result, ghosts, pre, post, invariants=(), locals=None, call_ghosts=(), card_candidates=None,
+                 fragment=None, abstract_methods=None):
+        # fragment = (name, loop ordinal): verify only the statements from the LAST assignment of `name` before that loop through the
+        # loop itself; `params` then declares the free variables of the fragment (everything else of the function is dropped and
+        # the evidence says so).  abstract_methods: method name -> f(index term, ghosts) for calls  <list[obj]>[i].<method>(...)
+        self.fragment, self.abstract_methods = fragment, dict(abstract_methods or {})
         self.function, self.params, self.result, self.ghosts, self.pre, self.post = function, params, result, ghosts, pre, post
         self.invariants, self.locals, self.call_ghosts = list(invariants), dict(locals or {}), list(call_ghosts)
         self.card_candidates = card_candidates or (lambda g: [])
@@ -354,6 +368,10 @@ class Verifier:
             self.vc(f"safety/no-KeyError@{ast.unparse(e)}", p, z3.Select(c.dom, kt), "safety")
             v = z3.Select(c.val, kt)
             return VInt(v) if c.vkind == "int" else VKey(v)
+        if isinstance(c, VArr):
+            it = self.as_int(k)
+            self.vc(f"safety/no-IndexError@{ast.unparse(e)}", p, z3.And(-c.n <= it, it < c.n), "safety")
+            return VInt(z3.Select(c.arr, z3.If(it >= 0, it, c.n + it)))
         if isinstance(c, VList):
             it = self.as_int(k)
             self.vc(f"safety/no-IndexError@{ast.unparse(e)}", p, z3.And(-c.n <= it, it < c.n), "safety")
@@ -401,6 +419,18 @@ class Verifier:
 
     def e_Call(self, e, p):
         f = e.func
+        if isinstance(f, ast.Name) and f.id == "len" and len(e.args) == 1 and isinstance(e.args[0], ast.Attribute):
+            a = e.args[0]
+            key = "len:" + ast.unparse(a).split("]", 1)[-1].lstrip(".")
+            recv = a
+            while isinstance(recv, ast.Attribute):
+                recv = recv.value
+            if key in self.c.abstract_methods and isinstance(recv, ast.Subscript) and isinstance(recv.value, ast.Name):
+                c = self.ev(recv.value, p)
+                if isinstance(c, VList) and c.kind == "obj":
+                    it = self.as_int(self.ev(recv.slice, p))
+                    self.vc(f"safety/no-IndexError@{ast.unparse(recv)}", p, z3.And(-c.n <= it, it < c.n), "safety")
+                    return VInt(self.c.abstract_methods[key](z3.If(it >= 0, it, c.n + it), self.g))
         if isinstance(f, ast.Name):
             args = [self.ev(a, p) for a in e.args]
             if e.keywords:
@@ -408,6 +438,8 @@ class Verifier:
             if f.id == "str" and len(args) == 1 and isinstance(args[0], VInt):
                 return VStr([("int", args[0].t)])
             if f.id == "len" and len(args) == 1:
+                if isinstance(args[0], VArr):
+                    return VInt(args[0].n)
                 if isinstance(args[0], VList):
                     return VInt(args[0].n)
                 if isinstance(args[0], VDict):
@@ -417,6 +449,24 @@ class Verifier:
             if f.id in self.registry and f.id in self.func.__globals__ and self.func.__globals__[f.id] is self.registry[f.id][0]:
                 return self.apply_contract(f.id, args, p)
             raise Unsupported(f"call of {f.id}")
+        if isinstance(f, ast.Attribute) and isinstance(f.value, ast.Name) and f.value.id == "np" and f.attr == "zeros" and len(e.args) == 1 and not e.keywords:
+            n = self.as_int(self.ev(e.args[0], p))
+            self.vc(f"safety/non-negative-length@{ast.unparse(e)}", p, n >= 0, "safety")
+            return VArr(z3.K(I, z3.IntVal(0)), n)
+        if isinstance(f, ast.Attribute) and ast.unparse(f).split("]", 1)[-1].lstrip(".") in self.c.abstract_methods:
+            key = ast.unparse(f).split("]", 1)[-1].lstrip(".")
+            recv = f
+            while isinstance(recv, ast.Attribute):
+                recv = recv.value
+            if isinstance(recv, ast.Subscript) and isinstance(recv.value, ast.Name):
+                c = self.ev(recv.value, p)
+                if isinstance(c, VList) and c.kind == "obj":
+                    it = self.as_int(self.ev(recv.slice, p))
+                    self.vc(f"safety/no-IndexError@{ast.unparse(recv)}", p, z3.And(-c.n <= it, it < c.n), "safety")
+                    args = [a.value for a in e.args if isinstance(a, ast.Constant)]
+                    if len(args) != len(e.args):
+                        raise Unsupported("abstract method with a non-constant argument")
+                    return VInt(self.c.abstract_methods[key](z3.If(it >= 0, it, c.n + it), self.g, *args))
         if isinstance(f, ast.Attribute) and f.attr == "index" and len(e.args) == 1:
             c = self.ev(f.value, p)
             if not (isinstance(c, VList) and c.kind in ("int", "key")):
@@ -465,7 +515,8 @@ class Verifier:
                         out.add(self.root(t))
                 elif isinstance(n, ast.For):
                     out.add(self.root(n.target))
-                elif isinstance(n, ast.Call) and isinstance(n.func, ast.Attribute) and n.func.attr not in ("index", "count", "copy", "keys", "values", "items", "get"):
+                elif isinstance(n, ast.Call) and isinstance(n.func, ast.Attribute) and n.func.attr not in ("index", "count", "copy", "keys", "values", "items", "get", "zeros") \
+                        and n.func.attr not in {k.split(".")[-1] for k in self.c.abstract_methods}:
                     out.add(self.root(n.func.value))
                 elif isinstance(n, (ast.Delete,)):
                     raise Unsupported("del")
@@ -515,13 +566,17 @@ class Verifier:
         v = self.ev(s.value, p)
         if isinstance(t, ast.Name):
             if isinstance(v, VStr): v = v.key()
-            if isinstance(v, (VList, VDict)) and not isinstance(s.value, (ast.List, ast.Dict, ast.DictComp, ast.Call)):
+            if isinstance(v, (VList, VDict, VArr)) and not isinstance(s.value, (ast.List, ast.Dict, ast.DictComp, ast.Call)):
                 raise Unsupported("aliasing assignment of a container")
             p.env[t.id] = self.typed(t.id, v)
             return [p]
         if isinstance(t, ast.Subscript) and isinstance(t.value, ast.Name):
             c = self.ev(t.value, p)
             k = self.as_int(self.ev(t.slice, p))
+            if isinstance(c, VArr):
+                self.vc(f"safety/no-IndexError@{ast.unparse(t)}", p, z3.And(-c.n <= k, k < c.n), "safety")
+                p.env[t.value.id] = VArr(z3.Store(c.arr, z3.If(k >= 0, k, c.n + k), self.as_int(v)), c.n)
+                return [p]
             if isinstance(c, VDict):
                 if c.vkind == "int":
                     val = self.as_int(v)
@@ -633,6 +688,8 @@ class Verifier:
                 elif isinstance(cur, VList):
                     q.env[name] = VList.symbolic(cur.kind, name)
                     q.hyps.append(q.env[name].n >= 0)
+                elif isinstance(cur, VArr):
+                    q.env[name] = VArr(fresh(name + ".arr", z3.ArraySort(I, I)), cur.n)
                 elif isinstance(cur, VDict):
                     q.env[name] = VDict.symbolic(cur.vkind, name)
                 elif isinstance(cur, VKey):
@@ -664,7 +721,27 @@ class Verifier:
     def generate(self):
         self.g = self.c.ghosts()
         names = [a.arg for a in self.tree.args.args]
-        if names != list(self.c.params) or self.tree.args.vararg or self.tree.args.kwarg or self.tree.args.kwonlyargs:
+        body = self.tree.body
+        self.dropped = 0
+        if self.c.fragment:
+            var, k = self.c.fragment
+            if k >= len(self.loops) or self.loops[k] not in body:
+                raise Unsupported("the fragment's loop is not a top-level statement of the function")
+            end = body.index(self.loops[k])
+            starts = [i for i in range(end) if isinstance(body[i], ast.Assign) and len(body[i].targets) == 1
+                      and isinstance(body[i].targets[0], ast.Name) and body[i].targets[0].id == var]
+            if not starts:
+                raise Unsupported(f"no assignment of {var} before the fragment's loop")
+            for st in body[starts[-1] + 1:end]:
+                if self.modified([st]) & (set(self.c.params) | {var}):
+                    raise Unsupported("a statement between the assignment and the loop writes a variable of the fragment")
+            body = [body[starts[-1]], body[end]]
+            self.dropped = len(self.tree.body) - 2
+            for later in self.tree.body[end + 1:]:
+                if var in self.modified([later]):
+                    raise Unsupported(f"{var} is written again after the fragment")
+            names = list(self.c.params)
+        elif names != list(self.c.params) or self.tree.args.vararg or self.tree.args.kwarg or self.tree.args.kwonlyargs:
             raise Unsupported(f"signature {names} differs from the contract's {list(self.c.params)}")
         self.args = {n: symbolic(t, n) for n, t in self.c.params.items()}
         p = Path(self.args, [])
@@ -677,10 +754,10 @@ class Verifier:
             p.assume(t)
         self.pre_hyps = list(p.hyps)
         self.nreturn = 0
-        mutated = self.modified(self.tree.body) & set(names)
-        rest = self.run_block(self.tree.body, [p])
-        for q in rest:          # falling off the end returns None
-            for cname, t in self.c.post(self.args, None, self.g):
+        mutated = self.modified(body) & set(names)
+        rest = self.run_block(body, [p])
+        for q in rest:          # falling off the end returns None (fragment: the state after the loop is what the contract talks about)
+            for cname, t in self.c.post(q.env if self.c.fragment else self.args, None, self.g):
                 self.vc(f"post/{cname}", q, t, "post")
         self.frame_ok = not mutated
         self.mutated = mutated
